@@ -31,6 +31,10 @@ sys.path.insert(0, F.VERIF)
 from specs import utf8 as spec  # noqa: E402
 
 LEVEL = "other"
+IMPORTS = [
+    ("C05", ("C05.units", "C05.move"), "`moved over, deleted`: cursor positions are whole characters for every encoded length"),
+    ("C12", ("C12.from_command",), "`h` alone is reserved: no other scalar used as a short option is taken for the help option"),
+]
 
 # (number of payload bits, [(byte prefix bits (MSB first), number of payload bits in that byte)], scalar range)
 FORMS = [
